@@ -93,6 +93,19 @@ func lowerRDataNames(rr dns.RR) (dns.RR, []string) {
 		low(&v.Target)
 	case *dns.SRV:
 		low(&v.Target)
+	case *dns.MB:
+		low(&v.Mb)
+	case *dns.MG:
+		low(&v.Mg)
+	case *dns.MR:
+		low(&v.Mr)
+	case *dns.MF:
+		low(&v.Mf)
+	case *dns.MD:
+		low(&v.Md)
+	case *dns.MINFO:
+		low(&v.Rmail)
+		low(&v.Email)
 	default:
 		return nil, nil
 	}
